@@ -528,14 +528,19 @@ CO_ERR COCSdoResponse(CO_CSDO *csdo)
             COCSdoAbort(csdo, CO_SDO_ERR_CMD);
             COCSdoTransferFinalize(csdo);
         }
-    } else if (cmd == 0x60u) {
+    } else if ((csdo->Tfer.Type == CO_CSDO_TRANSFER_DOWNLOAD) &&
+               (cmd == 0x60u)) {
         result = COCSdoDownloadExpedited(csdo);
         return (result);
-    } else if ((cmd & 0x43u) != 0u) {
+    } else if ((csdo->Tfer.Type == CO_CSDO_TRANSFER_UPLOAD) &&
+               ((cmd & 0xE3u) == 0x43u)) {
+        /* expedited upload response with indicated size */
         result = COCSdoUploadExpedited(csdo);
         return (result);
     } else {
-        COCSdoAbort(csdo, CO_SDO_ERR_PARA_INCOMP);
+        /* response does not belong to the requested transfer */
+        COCSdoAbort(csdo, CO_SDO_ERR_CMD);
+        COCSdoTransferFinalize(csdo);
     }
     
     return (result);
